@@ -994,10 +994,17 @@ impl World {
         match task.poll() {
             Polled::Pending => {
                 self.driver = Some(task);
-                for (id, n) in readable {
-                    let e = self.routed.entry(id).or_insert((0, self.now));
-                    if n > e.0 {
-                        *e = (n, self.now);
+                // a driver that is stuck in a request write has not looked at the read side
+                let stalled_in_write = self.io.lock().unwrap().write_waker.is_some();
+                if !stalled_in_write {
+                    for (id, n) in readable {
+                        let e = self.routed.entry(id).or_insert((0, self.now));
+                        if n > e.0 {
+                            *e = (n, self.now);
+                        }
+                    }
+                    if self.scn.oracles.route {
+                        self.check_held_back();
                     }
                 }
             }
@@ -1028,6 +1035,44 @@ impl World {
             }
         }
         self.gauges = ldap3::verif::gauges();
+    }
+
+    /// The driver has just gone back to waiting. A caller that waits for a single response, or
+    /// for the next item of a direct stream, whose frame was completely readable before that
+    /// poll must have been woken by it.
+    fn check_held_back(&mut self) {
+        let mut found = vec![];
+        for (i, c) in self.clients.iter().enumerate() {
+            let (task, call) = match (&c.task, &c.cur) {
+                (Some(t), Some((call, _))) => (t, call),
+                _ => continue,
+            };
+            if task.woken() {
+                continue;
+            }
+            let (marker, handed) = match call {
+                Call::Single { marker, .. } => (marker.clone(), 0usize),
+                Call::Next if matches!(c.sm.chain, Some(Chain::Direct)) && c.sm.state == "Active" => (c.sm.marker.clone(), c.sm.pos),
+                Call::NextInner => match &c.inner {
+                    Some((m, pos, true)) => (m.clone(), *pos),
+                    _ => continue,
+                },
+                _ => continue,
+            };
+            if self.abandoned_marker(&marker) || self.server.intermediate_for.contains(&marker) {
+                continue;
+            }
+            let routed = self.routed_frames(&marker);
+            if routed > handed {
+                found.push((i, format!("{:?}", call), routed, handed));
+            }
+        }
+        for (i, call, routed, handed) in found {
+            self.v(
+                "route:complete-frame-held-back",
+                format!("client {} waits in {} and was not woken although {} frame(s) for it had arrived completely before the driver's last poll and only {} were handed out", i, call, routed, handed),
+            );
+        }
     }
 
     /// number of response frames per ID whose last byte has been made readable
